@@ -74,6 +74,7 @@ type simSess struct {
 	done   chan struct{}
 	wrErr  error
 	opened time.Duration
+	weClosed bool // the harness closed its end
 }
 
 // simPeerDef is the scripted peer's identity (plain data).
@@ -92,6 +93,9 @@ type simNet struct {
 	peerEvs []simPeerEvent
 	watchCancel context.CancelFunc
 	stopped bool
+	// beforeLeakCheck (optional) ends the scenario's own goroutines after the server was stopped and its
+	// connections were looked at, before the leftover-goroutine check
+	beforeLeakCheck func()
 }
 
 type simPeerEvent struct {
@@ -261,7 +265,12 @@ func (ss *simSess) send(m *bgp.BGPMessage, o *bgp.MarshallingOption) error {
 	return ss.sendRaw(b)
 }
 
-func (ss *simSess) close() { _ = ss.conn.Close() }
+func (ss *simSess) close() {
+	ss.mu.Lock()
+	ss.weClosed = true
+	ss.mu.Unlock()
+	_ = ss.conn.Close()
+}
 
 // msgsOfType returns the received messages of one type.
 func simOfType(rx []simMsg, typ uint8) []simMsg {
@@ -394,12 +403,31 @@ func (n *simNet) stop() *verifkit.Failure {
 		n.watchCancel()
 	}
 	n.s.Stop()
-	for _, ss := range n.sessions() {
-		ss.close()
-	}
 	n.settle()
 	time.Sleep(2 * time.Second) // write deadlines etc.
 	synctest.Wait()
+	// "Stopping the server ... closes its connections" (C20): every transport connection the scripted peers have not
+	// closed themselves has reached its end
+	var open []string
+	for i, ss := range n.sessions() {
+		ss.mu.Lock()
+		if !ss.eof && !ss.weClosed {
+			open = append(open, fmt.Sprintf("connection #%d of %s opened at %v (%d messages received on it)", i, ss.peer.Addr, ss.opened, len(ss.rx)))
+		}
+		ss.mu.Unlock()
+	}
+	for _, ss := range n.sessions() {
+		ss.close()
+	}
+	if n.beforeLeakCheck != nil {
+		n.beforeLeakCheck()
+	}
+	n.settle()
+	time.Sleep(2 * time.Second)
+	synctest.Wait()
+	if len(open) > 0 {
+		return verifkit.Failf("connection-left-open", "%d connection(s) are still open 2 s after Stop:\n  %s", len(open), strings.Join(open, "\n  "))
+	}
 	if left := simLeftover(); len(left) > 0 {
 		return verifkit.Failf("goroutine-leak", "%d goroutine(s) of the server are still alive after Stop:\n%s", len(left), strings.Join(left, "\n\n"))
 	}
